@@ -1,6 +1,7 @@
 // sim/props/c11.h -- C11: Thread<->owner Messages arrive exactly once, in order, and always wake the peer (thrsim)
 #pragma once
 #include "system/Thread.h"
+#include "util/SocketCallbackMechanism.h"
 #include "message/Message.h"
 #include "util/SocketMultiplexer.h"
 #include "util/NetworkUtilityFunctions.h"
@@ -28,7 +29,7 @@ inline Plan Gen(uint64_t seed)
    //           2 = STRICTLY event-driven owner: it looks at its reply queue only after select() reported the wake-up socket readable, and then drains it
    //               (its G ops are no-ops): every reply -- including one queued before the thread was started -- must produce a wake-up byte
    const int ownloop = cfg.oneIn(3) ? 1 : (((sockets)&&(cfg.oneIn(3))) ? 2 : 0);
-   p.push_back("cfg prop=C11 sockets=" + I(sockets) + " ownloop=" + I(ownloop) + " ownersel=" + I(((sockets)&&(cfg.oneIn(3))) ? (1 + (int) cfg.below(2)) : 0) + " extras=" + I(extras) + thrc::SchedCfgStr(cfg)
+   p.push_back("cfg prop=C11 sockets=" + I(sockets) + " ownloop=" + I(ownloop) + " ownersel=" + I(((sockets)&&(Rng(seed, "mech").oneIn(6))) ? 3 : (((sockets)&&(cfg.oneIn(3))) ? (1 + (int) cfg.below(2)) : 0)) + " extras=" + I(extras) + thrc::SchedCfgStr(cfg)
                + " closefd0=" + I(((sockets)&&(Rng(seed, "closefd0").oneIn(8))) ? 1 : 0)   // descriptor 0 is free when the Thread creates its socket pair (a process that closed stdin): one signalling socket IS descriptor 0
                + " usersock=" + I(((sockets)&&(Rng(seed, "usersock").oneIn(4))) ? (1 + (int) Rng(seed, "usersock2").below(2)) : 0));   // 1/2: the internal thread also watches a user socket (for write-ready / for exceptions) that never becomes ready
    std::string s = "prog 0";
@@ -90,7 +91,11 @@ static std::string NoLostWakeup(std::string & cls)
 class EchoThread : public Thread
 {
 public:
-   EchoThread(bool sockets, int ownLoop, Shared * sh) : Thread(sockets), _ownLoop(ownLoop), _sh(sh) {}
+   EchoThread(bool sockets, int ownLoop, Shared * sh, ICallbackMechanism * mech = NULL) : Thread(sockets, mech), _ownLoop(ownLoop), _sh(sh), _mechMode(mech != NULL) {}
+   // callback-mechanism mode: the owner never asks for replies itself -- the mechanism's DispatchCallbacks(), run by the owner when the mechanism's notifier socket is readable,
+   // ends up here once per reply
+   virtual void MessageReceivedFromInternalThread(const MessageRef & r, uint32) {if ((_mechMode)&&(r())) {_sh->replies.push_back(r()->what); _sh->res->stats.inc("replies_received"); _sh->res->stats.inc("replies_received_through_callback_mechanism");}}
+   bool _mechMode = false;
    virtual status_t MessageReceivedFromOwner(const MessageRef & m, uint32 numLeft)
    {
       if (m() == NULL) return B_SHUTTING_DOWN;
@@ -172,7 +177,9 @@ inline void Exec(const Plan & plan, RunResult & res)
    {
       const bool sockets = (cfg.i("sockets", 1) != 0);
       if ((sockets)&&(cfg.i("closefd0", 0))) {(void) ::close(0); res.stats.inc("runs_with_descriptor_0_free");}
-      EchoThread t(sockets, sockets ? (int) cfg.i("ownloop", 0) : (cfg.i("ownloop", 0) ? 1 : 0), &sh);
+      const bool mechOwner = (sockets)&&(cfg.i("ownersel", 0) == 3);   // 3 = the owner is woken through a SocketCallbackMechanism (Thread's optional ICallbackMechanism) and collects replies in its dispatch callback
+      SocketCallbackMechanism mech;   // (outlives the Thread)
+      EchoThread t(sockets, sockets ? (int) cfg.i("ownloop", 0) : (cfg.i("ownloop", 0) ? 1 : 0), &sh, mechOwner ? &mech : NULL);
       const bool ownerSel = (sockets)&&(cfg.i("ownersel", 0) != 0), strictOwner = (sockets)&&(cfg.i("ownersel", 0) == 2);
       if ((sockets)&&(cfg.i("usersock", 0) > 0)&&(cfg.i("ownloop", 0) != 2)) t.WatchUnreadySocket((int) cfg.i("usersock", 0));
       SocketMultiplexer ownerSm;
@@ -200,6 +207,15 @@ inline void Exec(const Plan & plan, RunResult & res)
       // the owner's select-first collection: polls until its queue is empty (only then is the next wake-up byte guaranteed), then sleeps in select() on the owner wake-up socket
       auto SelectAndCollect = [&]()
       {
+         if (mechOwner)
+         {
+            const int mfd = mech.GetDispatchThreadNotifierSocket().GetFileDescriptor();
+            if (mfd < 0) thr::ReportAndExit("no_wakeup_socket", "the callback mechanism's notifier socket is invalid");
+            (void) ownerSm.RegisterSocketForReadReady(mfd);
+            if (ownerSm.WaitForEvents(MUSCLE_TIME_NEVER).IsError()) thr::ReportAndExit("select_failed", "SocketMultiplexer::WaitForEvents failed on the callback mechanism's notifier socket");
+            if (ownerSm.IsSocketReadyForRead(mfd)) {res.stats.inc("owner_select_wakeups"); mech.DispatchCallbacks();}
+            return;
+         }
          if (!strictOwner) {while(GetReply(0)) {} if (sh.replies.size() >= TotalOwed()) return;}
          const int fd = t.GetOwnerWakeupSocket().GetFileDescriptor();
          if (fd < 0) thr::ReportAndExit("no_wakeup_socket", "GetOwnerWakeupSocket() is invalid while the internal thread is running");
@@ -241,7 +257,7 @@ inline void Exec(const Plan & plan, RunResult & res)
                sh.preCount++; sh.repliesDone++; res.stats.inc("p.reply_queued_before_start");
             }
          }
-         else if ((strictOwner)&&(op.size() > 1)&&(op[0] == 'G')) res.stats.inc("p.strict_owner_skipped_poll");
+         else if (((strictOwner)||(mechOwner))&&(op.size() > 1)&&(op[0] == 'G')) res.stats.inc("p.strict_owner_skipped_poll");
          else if (op == "G0") (void) GetReply(0);
          else if (op == "GN") {if ((running)&&(sh.replies.size() < TotalOwed())) (void) GetReply(MUSCLE_TIME_NEVER);}   // waiting forever is only compliant when a reply is still owed
          else if ((op.size() > 1)&&(op[0] == 'G')) (void) GetReply(thr::Now() + ToU(op.substr(1)));
@@ -286,7 +302,7 @@ inline void Exec(const Plan & plan, RunResult & res)
    WatchdogDisarm();
    res.stats.inc(cfg.i("sockets", 1) ? "runs_socket_signalling" : "runs_waitcondition_signalling");
    if (cfg.i("ownloop", 0) == 1) res.stats.inc("runs_own_event_loop"); if ((cfg.i("ownloop", 0) == 2)&&(cfg.i("sockets", 1))) res.stats.inc("runs_select_first_event_loop");
-   if ((cfg.i("ownersel", 0))&&(cfg.i("sockets", 1))) res.stats.inc((cfg.i("ownersel", 0) == 2) ? "runs_owner_strictly_event_driven" : "runs_owner_select_first"); if (cfg.i("realcv", 0)) res.stats.inc("runs_real_condition_variable_code");
+   if ((cfg.i("ownersel", 0))&&(cfg.i("sockets", 1))) res.stats.inc((cfg.i("ownersel", 0) == 3) ? "runs_owner_woken_through_callback_mechanism" : ((cfg.i("ownersel", 0) == 2) ? "runs_owner_strictly_event_driven" : "runs_owner_select_first")); if (cfg.i("realcv", 0)) res.stats.inc("runs_real_condition_variable_code");
    res.nontrivial = (sh.insideLog.size() >= 1)&&(thr::Stats().switches >= 2);
 }
 
